@@ -380,13 +380,13 @@ def run(ctx):
                     any(x.get("k") == "call" and (callee_name(x) or "").endswith("operator==") and "Payload" in (callee_name(x) or "") for x in walk(facts.expand(f, v)))
                 empty = False
                 for a in p.atoms:
-                    if a[0] == "cmp" and "getPayloadLength" in (a[1] + a[3]) and literal(a[2], a[4], a[5]) is None:
+                    if a[0] == "cmp" and "getPayloadLength" in (canon(facts.expand(f, a[4])) + canon(facts.expand(f, a[5]))) and literal(a[2], a[4], a[5]) is None:
                         for x, y, op in ((a[4], a[5], a[2]), (a[5], a[4], facts._flip_op(a[2]))):
                             if const_value(y) == 0 and op in ("<=", "=="):
                                 empty = True
                             if const_value(y) == 1 and op == "<":
                                 empty = True
-                    if a[0] == "truth" and a[2] is False and "getPayloadLength" in a[1] and "&&" not in a[1]:
+                    if a[0] == "truth" and a[2] is False and "getPayloadLength" in canon(facts.expand(f, a[3])) and "&&" not in canon(facts.expand(f, a[3])):
                         empty = True
                 if not compared and not empty:
                     bad = bad or "a path that can answer `equal` (returns `%s`) has neither compared the payloads nor found the payload length to be 0; its last " \
